@@ -264,6 +264,17 @@ def v_ecp_placeholder_highest(b, rng):
     return True
 
 
+def v_sto(b, rng):
+    """VALID variation: the schema's fourth function type - an s, p or sp shell of Slater-type functions"""
+    s = [sh for _z, _i, sh in shells_of(b) if max(sh['angular_momentum']) <= 1]
+    if not s:
+        return False
+    rng.choice(s)['function_type'] = 'sto'
+    if 'function_types' in b:
+        b['function_types'] = sorted(set(b['function_types']) | {'sto'})
+    return True
+
+
 # schema-shape mutations
 def m_missing_key(b, rng):
     s = shells_of(b)
@@ -424,6 +435,9 @@ def work_generated(ctx, seed):
         v = copy.deepcopy(b)
         if v_ecp_placeholder_highest(v, rng):
             check(ctx, kind, v, True, 'gen:%d:placeholder' % seed)
+        v = copy.deepcopy(b)
+        if v_sto(v, rng):
+            check(ctx, kind, v, True, 'gen:%d:sto' % seed)
         muts = CATALOGUE if ctx.thorough() or ctx.boost else rng.sample(CATALOGUE, 12)
         for mut in muts:
             for _rep in range(3 if ctx.thorough() else 1):
